@@ -106,6 +106,13 @@ h.recv(2, {"type": "close", "mailbox": "mq", "mood": "happy"}, dt=80)
 save("findings", "K-usage-crash-dup", h.h, ["C10"], {"resend": True},
      "a crash between the usage commit and the channel commit of release/close: the re-sent command writes the usage record a second time")
 
+h = H()
+h.conn(1, "a", "s1").recv(1, {"type": "open", "mailbox": "mg"})
+h.recv(1, {"type": "close", "mood": "happy"}, dt=80)
+h.conn(2, "a", "s2").recv(2, {"type": "list"})
+save("findings", "K-reclose-usage-row", h.h, ["C10"], {"resend": True},
+     "a re-sent close of a mailbox that is already gone records a phantom mailbox (total_time 0) in the usage database")
+
 # ---------------------------------------------------------------- repaired defects (corpus)
 # F-close-key (a): two sides on one nameplate, both open, both close -> IntegrityError before the repair
 h = H()
